@@ -7,6 +7,11 @@ NOTES = ("All checks: ./check <ID> quick|thorough; exit 0 held / 1 VIOLATION / 2
          "every run. known_findings.json lists open findings and fixed: records; replays/<ID>/ holds committed regression cases.")
 NOT_APPLICABLE = {}
 CHECKS = {
+    "C16": {
+        "technique": "property-based testing with an independent substitution oracle: Hypothesis generates class hierarchies (depth <= 4, arity <= 3, partially bound / re-ordered / renamed type variables, diamonds, overriding annotations, bound / constrained / variadic variables) as pure data, builds them in several model kinds by exec of generated source, computes the expected field types with its own 30-line substitution and probes loads / dumps with conforming data and data that fits only another substitution",
+        "text": "Exploration: conforming data must load and round-trip, data fitting only a different pool member must fail with LoadError at that field's trail, bare use must follow the documented implicit parameters.",
+        "note": "Trusted: the harness's own substitution and the mutually exclusive strict type pool; pydantic multi-level / nested open generics excluded per integrations.rst; strict coercion only.",
+    },
     "C03": {
         "technique": "property-based testing against a reference model: Hypothesis-generated (model shape, 1-4 stacked name_mapping providers from the full parameter grammar) programs, each evaluated under the three debug modes on inputs built by walking the reference layout (every mapped key present / absent / ill-typed, container nodes of right / wrong kind, unknown keys, short / long lists); oracle = independent reference layout model written from extended-usage.rst (overlay merge, generated key, map lookup, skip > only, validity, load / dump behaviour incl. extra_in / extra_out / omit_default / list gaps)",
         "text": "Exploration over generated loader / dumper programs: creation validity, loaded objects and delivered extras, error classification (ALL: multiset of absolute trails + key sets; FIRST / DISABLE: membership), dumped data with exact types.",
